@@ -331,7 +331,40 @@ pub fn run(tier: Tier) -> i32 {
     ];
     let max_nodes = tier.pick(5, 6);
     let levels = enum_semantic(max_nodes, &atoms, tier.pick(3, 3));
-    let all: Vec<&P> = levels.iter().flatten().collect();
+    let mut all: Vec<&P> = levels.iter().flatten().collect();
+    // wide thresholds (arity 4 and 5, every k) over keys, constants, a lock and one nested conjunction:
+    // the threshold re-basing arithmetic (m = k - trivial, n = len - trivial - unsatisfiable)
+    let wide: Vec<P> = {
+        let pool = vec![P::Key("A".into()), P::Key("B".into()), P::Key("C".into()), P::Trivial, P::Unsat, P::Older(5), P::Thresh(2, vec![P::Key("D".into()), P::After(10)])];
+        let mut v = vec![];
+        for n in [4usize, 5] {
+            let total = pool.len().pow(n as u32);
+            for mut code in 0..total {
+                let mut ch = vec![];
+                let mut sorted = true;
+                let mut last = 0;
+                for _ in 0..n {
+                    let i = code % pool.len();
+                    code /= pool.len();
+                    // children are a multiset for a threshold: enumerate non-decreasing index tuples only
+                    if i < last {
+                        sorted = false;
+                    }
+                    last = i;
+                    ch.push(pool[i].clone());
+                }
+                if !sorted {
+                    continue;
+                }
+                for k in 1..=n {
+                    v.push(P::Thresh(k, ch.clone()));
+                }
+            }
+        }
+        v
+    };
+    all.extend(wide.iter());
+    rep.extra("wide_thresholds", json!(wide.len()));
     rep.extra("bounds", json!({"semantic_nodes": max_nodes, "thresh_arity": 3, "policies_per_level": levels.iter().map(|l| l.len()).collect::<Vec<_>>()}));
     let cen = all
         .par_iter()
@@ -344,6 +377,56 @@ pub fn run(tier: Tier) -> i32 {
             a
         });
     rep.merge_counts(&cen);
+    // miniscript side of the time-lock analysis: node-level bookkeeping and the mixed-lock
+    // predicate on the lock interplay family and on every term with the full leaf alphabet
+    {
+        use crate::ast::{build, walk, StrEnv, T};
+        use crate::terms::{explore, Alphabet};
+        let te = explore::<miniscript::Segwitv0>(tier.pick(4, 5), Alphabet::Full, false);
+        let mut terms: Vec<T> = te.all().map(|m| walk(m).relabel_distinct()).collect();
+        terms.extend(crate::c12::lock_family::<miniscript::Segwitv0>());
+        let c2 = terms
+            .par_iter()
+            .fold(Census::new, |mut cen, t| {
+                let ms = match build::<String, miniscript::Segwitv0>(t, &StrEnv) {
+                    Ok(m) => m,
+                    Err(_) => return cen,
+                };
+                bump(&mut cen, "miniscript_timelock_checks");
+                let li = ms.ext.timelock_info;
+                let got = [li.csv_with_height, li.csv_with_time, li.cltv_with_height, li.cltv_with_time, li.contains_combination];
+                let exp = crate::c12::tl_info(t);
+                let path_mixed = crate::c12::mixed_timelocks(t);
+                let mut viol = |class: &str, what: String| {
+                    rep.violation(Violation {
+                        key: format!("C18|ms-{}|{}", class, t.sexpr()),
+                        class: format!("miniscript-{}", class),
+                        what,
+                        case: json!({"miniscript": ms.to_string(), "model": t.sexpr()}),
+                    });
+                };
+                if got != exp {
+                    viol("timelock_info", format!("timelock_info (csv h/t, cltv h/t, combination) = {:?}, reference {:?}", got, exp));
+                }
+                // the predicate fires whenever a satisfying path needs both units (never misses one)
+                if path_mixed && !ms.has_mixed_timelocks() {
+                    viol("mixed-missed", "a satisfying path needs a height and a time lock of one kind but has_mixed_timelocks() is false".into());
+                }
+                if ms.has_mixed_timelocks() && !path_mixed {
+                    if crate::c12::mixed_timelocks_syntactic(t) || exp[4] {
+                        bump(&mut cen, "miniscript_mixed_conservative");
+                    } else {
+                        viol("mixed-invented", "has_mixed_timelocks() is true but no conjunction combines the two units".into());
+                    }
+                }
+                cen
+            })
+            .reduce(Census::new, |mut a, b| {
+                merge(&mut a, b);
+                a
+            });
+        rep.merge_counts(&c2);
+    }
     // wider thresholds (arity 4, all k) over atoms
     let mut wide: Vec<P> = vec![];
     for a in 0..atoms.len() {
